@@ -88,3 +88,196 @@ def snapshot(root):
                 with open(p, "rb") as fp:
                     snap[rel] = ("file", fp.read())
     return snap
+
+
+def run_bounded(fn, limit):
+    """Run `fn()` (returning a str) in a forked child of this process and wait at most `limit` seconds for it.
+
+    Returns the child's string, or "timeout:<limit>" after killing the child (and its process group) when it did not finish —
+    so a command of the code under test that never terminates (a regular expression that backtracks for ever, an endless walk)
+    becomes an observation instead of hanging the harness.  An exception escaping `fn` comes back as "EXC:<Class>:<text>",
+    like core.run_stream would record it.  Side effects of `fn` on this process's memory are lost (it ran in the child);
+    scratch trees made with `scratch()` inside `fn` are removed whether or not the child was killed."""
+    import select
+    import signal
+    import sys
+    import time
+
+    global SCRATCH_BASE
+    sys.stdout.flush()
+    sys.stderr.flush()
+    base = tempfile.mkdtemp(prefix="rv-bounded-", dir=SCRATCH_BASE)  # the child's scratch trees live here: removed even when it is killed
+    r, w = os.pipe()
+    pid = os.fork()
+    if pid == 0:  # child
+        status = 0
+        try:
+            os.close(r)
+            os.setpgid(0, 0)
+            SCRATCH_BASE = base
+            tempfile.tempdir = base
+            try:
+                out = fn()
+            except BaseException as e:  # noqa
+                out = "EXC:%s:%s" % (type(e).__name__, str(e)[:120])
+            data = out.encode("utf-8", "surrogatepass")
+            while data:
+                n = os.write(w, data)
+                data = data[n:]
+        except BaseException:  # noqa
+            status = 3
+        finally:
+            os._exit(status)
+    os.close(w)
+    chunks, deadline, timed_out = [], time.time() + limit, False
+    try:
+        while True:
+            left = deadline - time.time()
+            if left <= 0:
+                timed_out = True
+                break
+            ready, _, _ = select.select([r], [], [], left)
+            if not ready:
+                timed_out = True
+                break
+            b = os.read(r, 1 << 16)
+            if not b:
+                break
+            chunks.append(b)
+    finally:
+        os.close(r)
+        if timed_out:
+            for target in (-pid, pid):
+                try:
+                    os.kill(target, signal.SIGKILL)
+                except OSError:
+                    pass
+        try:
+            os.waitpid(pid, 0)
+        except OSError:
+            pass
+        shutil.rmtree(base, ignore_errors=True)
+    if timed_out:
+        return "timeout:%g" % limit
+    return b"".join(chunks).decode("utf-8", "surrogatepass")
+
+
+_WARM = False
+
+
+def warm_up():
+    """Run every sub-command once in this process over a tiny project, so that the modules, tables and caches they load lazily are
+    in memory before `run_bounded` forks (otherwise every child would import them again)."""
+    global _WARM
+    if _WARM:
+        return
+    _WARM = True
+    import urllib.request
+    from urllib.error import URLError
+
+    orig = urllib.request.urlopen
+
+    def refuse(*a, **k):
+        raise URLError("network disabled by the harness")
+
+    hdr = "# SPDX-FileCopyrightText: 2020 Jane\n# SPDX-License-Identifier: MIT\n"
+    urllib.request.urlopen = refuse
+    try:
+        with scratch("rv-warm-") as root:
+            write_tree(root, {"a.py": hdr, "b.py": "x\n", "LICENSES/MIT.txt": "MIT\n", "c.bin": b"\x00\x01", "d.py": hdr.replace("MIT", "0BSD"),
+                              ".reuse/dep5": "Format: https://www.debian.org/doc/packaging-manuals/copyright-format/1.0/\n\nFiles: c.bin\nCopyright: J\nLicense: MIT\n"})
+            for args in (["lint"], ["lint", "--json"], ["lint", "--lines"], ["lint-file", "a.py"], ["spdx"], ["download", "--all"],
+                         ["annotate", "-c", "J", "-l", "MIT", "b.py"], ["annotate", "-c", "J", "-l", "MIT", "-r", "."], ["convert-dep5"],
+                         ["supported-licenses"]):
+                run_cli(["--no-multiprocessing"] + args if args[0] not in ("annotate", "convert-dep5", "supported-licenses") else args, root)
+    finally:
+        urllib.request.urlopen = orig
+
+
+def run_bounded_batch(fn, items, limit, max_timeouts=None):
+    """[fn(item) for item in items], computed in forked children with `limit` seconds per item: like `run_bounded`, but one child
+    works through many items (a fork per item costs more than most items do) and hands every result back as soon as it has it.
+    When an item does not come back in time the child is killed, that item's result is "timeout:<limit>", and a new child
+    carries on with the next item.  After `max_timeouts` kills (if given) the remaining items are not run: their result is
+    "skipped"."""
+    import select
+    import signal
+    import struct
+    import sys
+    import time
+
+    global SCRATCH_BASE
+    results = []
+    kills = 0
+    while len(results) < len(items):
+        if max_timeouts is not None and kills >= max_timeouts:
+            results.extend(["skipped"] * (len(items) - len(results)))
+            break
+        start = len(results)
+        sys.stdout.flush()
+        sys.stderr.flush()
+        base = tempfile.mkdtemp(prefix="rv-bounded-", dir=SCRATCH_BASE)
+        r, w = os.pipe()
+        pid = os.fork()
+        if pid == 0:  # child
+            status = 0
+            try:
+                os.close(r)
+                os.setpgid(0, 0)
+                SCRATCH_BASE = base
+                tempfile.tempdir = base
+                for item in items[start:]:
+                    try:
+                        out = fn(item)
+                    except BaseException as e:  # noqa
+                        out = "EXC:%s:%s" % (type(e).__name__, str(e)[:120])
+                    data = out.encode("utf-8", "surrogatepass")
+                    data = struct.pack(">Q", len(data)) + data
+                    while data:
+                        n = os.write(w, data)
+                        data = data[n:]
+            except BaseException:  # noqa
+                status = 3
+            finally:
+                os._exit(status)
+        os.close(w)
+        buf = b""
+        hung = False
+        try:
+            deadline = time.time() + limit
+            while len(results) < len(items):
+                # a complete frame?
+                if len(buf) >= 8:
+                    n = struct.unpack(">Q", buf[:8])[0]
+                    if len(buf) >= 8 + n:
+                        results.append(buf[8:8 + n].decode("utf-8", "surrogatepass"))
+                        buf = buf[8 + n:]
+                        deadline = time.time() + limit
+                        continue
+                left = deadline - time.time()
+                ready = select.select([r], [], [], max(left, 0))[0] if left > 0 else []
+                if not ready:
+                    hung = True
+                    break
+                b = os.read(r, 1 << 16)
+                if not b:  # the child died without finishing its list (killed from outside, out of memory …)
+                    if len(results) < len(items):
+                        results.append("EXC:ChildDied:the child process ended without a result")
+                    break
+                buf += b
+        finally:
+            os.close(r)
+            for target in (-pid, pid):
+                try:
+                    os.kill(target, signal.SIGKILL)
+                except OSError:
+                    pass
+            try:
+                os.waitpid(pid, 0)
+            except OSError:
+                pass
+            shutil.rmtree(base, ignore_errors=True)
+        if hung:
+            results.append("timeout:%g" % limit)
+            kills += 1
+    return results
